@@ -110,6 +110,9 @@ package dns
 //@ lemma lbeg_range(s seq, e int) induct e: 0 <= lbeg(s, e) && (e >= 0 ==> lbeg(s, e) <= e) [C19]
 
 //@ spec isdot(s seq) bool = len(s) == 1 && s[0] == '.'
+// wend(s): where the label text of the name ends, i.e. without the root dot of a fully qualified name; the wire labels
+// of "miek.nl" and "miek.nl." are the same two
+//@ spec wend(s seq) int = (len(s) > 0 && s[len(s)-1] == '.' && !escd(s, len(s)-1)) ? len(s) - 1 : len(s)
 
 //@ func CompareDomainName [C19]
 //@   opt opaque = labeq lbeg sep nsep escd lower
@@ -123,7 +126,7 @@ package dns
 //@   apply at "if equal(s1[l1[i1]:l1[j1]], s2[l2[i2]:l2[j2]])" lbeg_skip(s1, l1[i1], l1[j1] - 1)
 //@   apply at "if equal(s1[l1[i1]:l1[j1]], s2[l2[i2]:l2[j2]])" lbeg_skip(s2, l2[i2], l2[j2] - 1)
 //@   ensures root: (isdot(s1) || isdot(s2)) ==> n == 0
-//@   ensures cnt:  len(s1) > 0 && len(s2) > 0 && !isdot(s1) && !isdot(s2) ==> n == csuf(s1, len(s1), s2, len(s2))
+//@   ensures cnt:  len(s1) > 0 && len(s2) > 0 && !isdot(s1) && !isdot(s2) ==> n == csuf(s1, wend(s1), s2, wend(s2))
 //@   ensures bound: len(s1) > 0 && len(s2) > 0 && !isdot(s1) && !isdot(s2) ==> 0 <= n && n <= nsep(s1, len(s1)-1) + 1 && n <= nsep(s2, len(s2)-1) + 1
 //@   loop 1 invariant i1 == j1 - 1 && i2 == j2 - 1 && 0 <= j1 && j1 < len(l1) && 0 <= j2 && j2 < len(l2)
 //@   loop 1 invariant n == len(l1) - j1 && n == len(l2) - j2
@@ -132,7 +135,7 @@ package dns
 
 //@ func IsSubDomain [C19 C17]
 //@   ensures rootp: isdot(parent) ==> ret0
-//@   ensures sub:   len(parent) > 0 && len(child) > 0 && !isdot(parent) && !isdot(child) ==> ret0 == (csuf(parent, len(parent), child, len(child)) == nsep(parent, len(parent)-1) + 1)
+//@   ensures sub:   len(parent) > 0 && len(child) > 0 && !isdot(parent) && !isdot(child) ==> ret0 == (csuf(parent, wend(parent), child, wend(child)) == nsep(parent, len(parent)-1) + 1)
 //@   ensures rootc: len(parent) > 0 && !isdot(parent) && isdot(child) ==> !ret0
 //@   pure
 
